@@ -540,7 +540,7 @@ func main() {
 	rep.Assumptions = []string{"state key = (u's saved rights, token classes): the handlers read nothing else", "HTTP media probes target paths without a live stream so that the interceptor decision (401/403 vs anything else) is observed without blocking in the streaming handler", "websocket sessions are created as service.onWebSocketRequest does after TryUpgrade (the upgrade decision itself is probed through the HTTP handler; the hijack needs a real socket)"}
 	depth := 4
 	if rep.Thorough() {
-		depth = 5
+		depth = 7
 	}
 	al := alphabet()
 	seen := map[string]bool{}
